@@ -242,3 +242,479 @@ Lemma merge_shares S1 S2 : N.land S1 S2 = 0%N ->
 Proof. intros Hd. apply (scan_merged S1 S2 Hd). Qed.
 
 End PartA.
+
+(* ================================================================== *)
+(* Part B: generic list / table lemmas *)
+
+Lemma tget_In s t e : tget s t = Some e -> In (s, e) t.
+Proof.
+  induction t as [|[k w] t IH]; cbn [tget]; [discriminate|].
+  destruct (N.eqb_spec k s) as [->|Hne]; intros H.
+  - inversion H; subst. left; reflexivity.
+  - right; apply IH, H.
+Qed.
+
+Lemma In_tset x s e t : In x (tset s e t) -> x = (s, e) \/ In x t.
+Proof.
+  induction t as [|[k w] t IH]; cbn [tset].
+  - intros [H|[]]; left; symmetry; exact H.
+  - destruct (N.eqb_spec k s) as [->|Hne]; intros [H|H].
+    + left; symmetry; exact H.
+    + right; right; exact H.
+    + right; left; exact H.
+    + destruct (IH H) as [H1|H1]; [left; exact H1 | right; right; exact H1].
+Qed.
+
+Lemma tset_In s e t : In (s, e) (tset s e t).
+Proof.
+  induction t as [|[k w] t IH]; cbn [tset]; [left; reflexivity|].
+  destruct (N.eqb_spec k s) as [->|Hne]; [left; reflexivity | right; exact IH].
+Qed.
+
+Lemma tset_preserve x s e t : In x t ->
+  In x (tset s e t) \/ (tget s t = Some (snd x) /\ fst x = s).
+Proof.
+  induction t as [|[k w] t IH]; [intros []|].
+  cbn [tset tget]. destruct (N.eqb_spec k s) as [->|Hne]; intros [H|H].
+  - right. subst x. split; reflexivity.
+  - left; right; exact H.
+  - left; left; exact H.
+  - destruct (IH H) as [H1|H1]; [left; right; exact H1 | right; exact H1].
+Qed.
+
+Lemma fold_left_inv {A B} (f : A -> B -> A) (P : A -> Prop) l :
+  (forall a b, In b l -> P a -> P (f a b)) -> forall a, P a -> P (fold_left f l a).
+Proof.
+  induction l as [|b l IH]; intros H a Ha; [exact Ha|]. cbn [fold_left].
+  apply IH; [intros a' b' Hb'; apply H; right; exact Hb' | apply H; [left; reflexivity | exact Ha]].
+Qed.
+
+Lemma fold_establish {A B} (f : A -> B -> A) (P : A -> Prop) l p :
+  In p l -> (forall a, P (f a p)) -> (forall a q, P a -> P (f a q)) ->
+  forall a, P (fold_left f l a).
+Proof.
+  intros Hin He Hp. induction l as [|b l IH]; [destruct Hin|]. intros a. cbn [fold_left].
+  destruct Hin as [->|Hin].
+  - apply fold_left_inv; [intros; apply Hp; assumption | apply He].
+  - apply IH, Hin.
+Qed.
+
+Lemma in_product2 {A B} (l1 : list A) (l2 : list B) a b :
+  In (a, b) (product2 l1 l2) <-> In a l1 /\ In b l2.
+Proof.
+  unfold product2. rewrite in_flat_map. split.
+  - intros [x [Hx H]]. apply in_map_iff in H. destruct H as [y [E Hy]]. inversion E; subst. tauto.
+  - intros [Ha Hb]. exists a. split; [exact Ha|]. apply in_map. exact Hb.
+Qed.
+
+Lemma in_combs2 {A} (l : list A) a b : In (a, b) (combs2 l) -> In a l /\ In b l.
+Proof.
+  induction l as [|x l IH]; [intros []|]. cbn [combs2]. rewrite in_app_iff. intros [H|H].
+  - apply in_map_iff in H. destruct H as [y [E Hy]]. inversion E; subst. split; [left|right]; tauto.
+  - destruct (IH H). split; right; assumption.
+Qed.
+
+Lemma combs2_complete {A} (l : list A) a b : In a l -> In b l -> a <> b ->
+  In (a, b) (combs2 l) \/ In (b, a) (combs2 l).
+Proof.
+  induction l as [|x l IH]; [intros []|]. cbn [combs2]. intros [Ha|Ha] [Hb|Hb] Hne.
+  - subst. contradiction.
+  - subst. left. apply in_app_iff. left. apply in_map. exact Hb.
+  - subst. right. apply in_app_iff. left. apply in_map. exact Ha.
+  - destruct (IH Ha Hb Hne) as [H|H]; [left|right]; apply in_app_iff; right; exact H.
+Qed.
+
+Lemma set_nth_length {A} (x : A) l : forall k, length (set_nth k x l) = length l.
+Proof. induction l as [|y l IH]; intros [|k]; cbn; try reflexivity. rewrite IH. reflexivity. Qed.
+
+Lemma nth_set_nth_same {A} (x d : A) l : forall k, k < length l -> nth k (set_nth k x l) d = x.
+Proof.
+  induction l as [|y l IH]; intros [|k] H; cbn in *; try lia; [reflexivity|]. apply IH. lia.
+Qed.
+
+Lemma nth_set_nth_other {A} (x d : A) l : forall k k', k' <> k -> nth k' (set_nth k x l) d = nth k' l d.
+Proof.
+  induction l as [|y l IH]; intros [|k] [|k'] H; cbn; try reflexivity; try lia. apply IH. lia.
+Qed.
+
+Lemma nth_set_nth_cases {A} (x d : A) l k k' :
+  nth k' (set_nth k x l) d = nth k' l d \/ (k' = k /\ nth k' (set_nth k x l) d = x).
+Proof.
+  destruct (Nat.eq_dec k' k) as [->|Hne].
+  - destruct (Nat.lt_ge_cases k (length l)) as [Hlt|Hge].
+    + right. split; [reflexivity | apply nth_set_nth_same, Hlt].
+    + left. rewrite !nth_overflow; [reflexivity | lia | rewrite set_nth_length; lia].
+  - left. apply nth_set_nth_other, Hne.
+Qed.
+
+Lemma in_combine_seq {A} (l : list A) d : forall a i x,
+  In (i, x) (combine (seq a (length l)) l) <-> a <= i < a + length l /\ x = nth (i - a) l d.
+Proof.
+  induction l as [|y l IH]; intros a i x; cbn [length seq combine].
+  - split; [intros [] | lia].
+  - cbn [In]. rewrite IH. split.
+    + intros [H|[H1 H2]].
+      * inversion H; subst. split; [lia|]. rewrite Nat.sub_diag. reflexivity.
+      * split; [lia|]. subst x. replace (i - a) with (S (i - S a)) by lia. reflexivity.
+    + intros [H1 H2]. destruct (Nat.eq_dec i a) as [->|Hne].
+      * left. subst x. rewrite Nat.sub_diag. reflexivity.
+      * right. split; [lia|]. subst x. replace (i - a) with (S (i - S a)) by lia. reflexivity.
+Qed.
+
+(* ================================================================== *)
+(* the algebra of the objectives *)
+
+Lemma combine_sym o a b s : combine_sc o a b s = combine_sc o b a s.
+Proof. destruct o; unfold combine_sc, zmax3; lia. Qed.
+
+Lemma combine_mono o a a' b b' s : (a <= a')%Z -> (b <= b')%Z ->
+  (combine_sc o a b s <= combine_sc o a' b' s)%Z.
+Proof. intros; destruct o; unfold combine_sc, zmax3; lia. Qed.
+
+Lemma combine_ge o a b s : (0 <= a)%Z -> (0 <= b)%Z -> (0 <= s)%Z ->
+  (a <= combine_sc o a b s /\ b <= combine_sc o a b s /\ 0 <= combine_sc o a b s)%Z.
+Proof. intros; destruct o; unfold combine_sc, zmax3; lia. Qed.
+
+Lemma vtree_mask n t S : vtree n t S -> mask t = S.
+Proof. induction 1; cbn [mask]; congruence. Qed.
+
+Lemma bit_neq_0 i : bit i <> 0%N.
+Proof. unfold bit. intros H. apply N.shiftl_eq_0_iff in H. discriminate. Qed.
+
+Lemma vtree_nonzero n t S : vtree n t S -> S <> 0%N.
+Proof.
+  induction 1; [apply bit_neq_0|]. intros H2. apply N.lor_eq_0_iff in H2. tauto.
+Qed.
+
+Lemma vtree_nleaves_pos n t S : vtree n t S -> 1 <= nleaves t.
+Proof. induction 1; cbn [nleaves]; lia. Qed.
+
+Section Algebra.
+Variable nodes : list legs.
+Variable app : list nat.
+Variable szs : list Z.
+Hypothesis Hsz : forall j, j < length app -> (0 <= szn szs j)%Z.
+
+Lemma dimsw_nonneg f ks : (forall j, In j ks -> j < length app) -> (0 <= dimsw szs f ks)%Z.
+Proof.
+  induction ks as [|k ks IH]; intros H; cbn [dimsw fold_right]; [lia|].
+  fold (dimsw szs f ks).
+  assert (0 <= dimsw szs f ks)%Z by (apply IH; intros j Hj; apply H; right; exact Hj).
+  destruct (f k); [|assumption].
+  apply Z.mul_nonneg_nonneg; [apply Hsz, H; left; reflexivity | assumption].
+Qed.
+
+Lemma dims_where_nonneg f : (0 <= dims_where app szs f)%Z.
+Proof. apply (dimsw_nonneg f). intros j Hj. apply in_seq in Hj. lia. Qed.
+
+Lemma step_cost_nonneg o S1 S2 : obj_ok o -> (0 <= step_cost nodes app szs o S1 S2)%Z.
+Proof.
+  intros Ho.
+  pose proof (dims_where_nonneg (fun j => surv nodes app S1 j || surv nodes app S2 j)) as H1.
+  pose proof (dims_where_nonneg (surv nodes app (N.lor S1 S2))) as H2.
+  destruct o; cbn [step_cost obj_ok] in *; unfold step_flops, step_size; try assumption.
+  - apply Z.add_nonneg_nonneg; [assumption | apply Z.mul_nonneg_nonneg; assumption].
+  - lia.
+Qed.
+
+Lemma tscore_nonneg o t : obj_ok o -> (0 <= tscore nodes app szs o t)%Z.
+Proof.
+  intros Ho. induction t as [k|l IHl r IHr]; cbn [tscore]; [lia|].
+  apply combine_ge; try assumption. apply step_cost_nonneg, Ho.
+Qed.
+
+Lemma step_cost_sym o S1 S2 : step_cost nodes app szs o S1 S2 = step_cost nodes app szs o S2 S1.
+Proof.
+  assert (F : step_flops nodes app szs S1 S2 = step_flops nodes app szs S2 S1).
+  { unfold step_flops, dims_where. apply (dimsw_ext szs). intros j _. apply orb_comm. }
+  assert (G : step_size nodes app szs S1 S2 = step_size nodes app szs S2 S1).
+  { unfold step_size. rewrite N.lor_comm. reflexivity. }
+  destruct o; cbn [step_cost]; rewrite ?F, ?G; reflexivity.
+Qed.
+
+Lemma shares_sym S1 S2 : shares nodes app S1 S2 = shares nodes app S2 S1.
+Proof. unfold shares. apply existsb_ext_in. intros j _. apply andb_comm. Qed.
+
+End Algebra.
+
+(* ================================================================== *)
+(* Part B: invariants of the dynamic programme *)
+Section PartB.
+Variable nodes : list legs.
+Variable app : list nat.
+Variable szs : list Z.
+Variable o : objective.
+Variable so : bool.
+Notation n := (length nodes).
+Hypothesis Hleaf : forall i, i < n -> nth i nodes [] = legs_of nodes app (bit i).
+Hypothesis Happ : forall j, j < length app -> cnt_all nodes j <= appn app j.
+Hypothesis Hsz : forall j, j < length app -> (0 <= szn szs j)%Z.
+Hypothesis Hobj : obj_ok o.
+
+Notation tsc := (tscore nodes app szs o).
+Notation adm := (admissible nodes app so).
+Notation lof := (legs_of nodes app).
+Notation stepc := (step_cost nodes app szs o).
+Notation trypair := (try_pair app szs o so).
+
+(* a table entry is the true record of some admissible tree on its subgraph *)
+Definition good (m : nat) (x : N * entry) : Prop :=
+  exists t, vtree n t (fst x) /\ nleaves t = m /\ adm t = true /\
+            e_legs (snd x) = lof (fst x) /\ e_score (snd x) = tsc t /\ e_path (snd x) = bitpath t.
+
+Definition sound (tabs : list table) : Prop := forall m x, In x (nth m tabs []) -> good m x.
+
+Lemma try_pair_cases cap tm p :
+  trypair cap tm p = tm \/
+  exists tl a b, cand so p = Some (tl, (a, b)) /\
+    let r := con_cost app szs o tl a b in
+    let s := N.lor (fst (fst p)) (fst (snd p)) in
+    let new := (fst r, (snd r, e_path (snd (fst p)) ++ e_path (snd (snd p))
+                                 ++ [(fst (fst p), fst (snd p))])) in
+    (snd r <= cap)%Z /\ trypair cap tm p = tset s new tm /\
+    (tget s tm = None \/ exists cur, tget s tm = Some cur /\ (snd r < e_score cur)%Z).
+Proof.
+  unfold try_pair. destruct (cand so p) as [[tl [a b]]|]; [|left; reflexivity].
+  destruct (Z.gtb_spec (snd (con_cost app szs o tl a b)) cap) as [Hgt|Hle]; [left; reflexivity|].
+  destruct (tget (N.lor (fst (fst p)) (fst (snd p))) tm) as [cur|] eqn:Eg.
+  - destruct (Z.ltb_spec (snd (con_cost app szs o tl a b)) (e_score cur)) as [Hlt|Hge]; [|left; reflexivity].
+    right. exists tl, a, b. split; [reflexivity|]. cbv zeta. split; [exact Hle|]. split; [reflexivity|].
+    right. exists cur. split; [reflexivity | exact Hlt].
+  - right. exists tl, a, b. split; [reflexivity|]. cbv zeta. split; [exact Hle|]. split; [reflexivity|].
+    left; reflexivity.
+Qed.
+
+Lemma cand_good a b pi pj : good a pi -> good b pj ->
+  forall tl sa sb, cand so (pi, pj) = Some (tl, (sa, sb)) ->
+  N.land (fst pi) (fst pj) = 0%N /\ tl = fst (merge_legs (lof (fst pi)) (lof (fst pj))) /\
+  (so = true \/ shares nodes app (fst pi) (fst pj) = true) /\
+  sa = e_score (snd pi) /\ sb = e_score (snd pj).
+Proof.
+  intros (ti & _ & _ & _ & Hli & _) (tj & _ & _ & _ & Hlj & _) tl sa sb.
+  destruct pi as [si ei], pj as [sj ej]. cbn [fst snd] in *. unfold cand.
+  destruct (N.eqb_spec (N.land si sj) 0) as [Hd|Hd]; cbn [negb]; [|discriminate].
+  rewrite Hli, Hlj, (merge_shares nodes app szs Happ si sj Hd).
+  destruct so; cbn [negb andb].
+  - intros H; inversion H; subst. auto.
+  - destruct (shares nodes app si sj); cbn [negb]; [|discriminate].
+    intros H; inversion H; subst. auto.
+Qed.
+
+Lemma cand_some a b pi pj : good a pi -> good b pj ->
+  N.land (fst pi) (fst pj) = 0%N -> (so = true \/ shares nodes app (fst pi) (fst pj) = true) ->
+  cand so (pi, pj) = Some (fst (merge_legs (lof (fst pi)) (lof (fst pj))),
+                           (e_score (snd pi), e_score (snd pj))).
+Proof.
+  intros (ti & _ & _ & _ & Hli & _) (tj & _ & _ & _ & Hlj & _) Hd Hs.
+  destruct pi as [si ei], pj as [sj ej]. cbn [fst snd] in *. unfold cand.
+  rewrite Hd. cbn [N.eqb negb]. rewrite Hli, Hlj, (merge_shares nodes app szs Happ si sj Hd).
+  destruct Hs as [->| ->]; [reflexivity|]. rewrite andb_false_r. reflexivity.
+Qed.
+
+Lemma try_pair_sound cap tm a b pi pj : good a pi -> good b pj ->
+  (forall x, In x tm -> good (a + b) x) ->
+  forall x, In x (trypair cap tm (pi, pj)) -> good (a + b) x.
+Proof.
+  intros Hgi Hgj Htm.
+  destruct (try_pair_cases cap tm (pi, pj)) as [E|(tl & sa & sb & Hc & H)]; [rewrite E; exact Htm|].
+  cbv zeta in H. destruct H as (_ & E & _). rewrite E. intros x Hx.
+  apply In_tset in Hx. destruct Hx as [->|Hx]; [|apply Htm, Hx].
+  destruct (cand_good a b pi pj Hgi Hgj tl sa sb Hc) as (Hd & -> & Hso & -> & ->).
+  destruct Hgi as (ti & Hvi & Hni & Hai & Hli & Hsi & Hpi).
+  destruct Hgj as (tj & Hvj & Hnj & Haj & Hlj & Hsj & Hpj).
+  cbn [fst snd] in *. exists (Node ti tj). unfold e_legs, e_score, e_path. cbn [fst snd].
+  rewrite (con_cost_spec nodes app szs Happ o _ _ _ _ Hd). cbn [fst snd].
+  split; [constructor; assumption|]. split; [cbn [nleaves]; congruence|].
+  split.
+  { unfold admissible in *. cbn [outer_free]. rewrite (vtree_mask _ _ _ Hvi), (vtree_mask _ _ _ Hvj).
+    destruct Hso as [->|Hsh]; [reflexivity|]. rewrite Hsh.
+    destruct so; [reflexivity|]. cbn [orb] in *. rewrite Hai, Haj. reflexivity. }
+  split; [reflexivity|]. split.
+  { cbn [tscore]. rewrite (vtree_mask _ _ _ Hvi), (vtree_mask _ _ _ Hvj).
+    unfold e_score in Hsi, Hsj. rewrite Hsi, Hsj. reflexivity. }
+  cbn [bitpath]. rewrite (vtree_mask _ _ _ Hvi), (vtree_mask _ _ _ Hvj).
+  unfold e_path in Hpi, Hpj. rewrite Hpi, Hpj. reflexivity.
+Qed.
+
+(* the table holds, for S, an entry of score at most x *)
+Definition has (S : N) (x : Z) (tm : table) : Prop := exists e, In (S, e) tm /\ (e_score e <= x)%Z.
+
+Lemma has_preserved S x cap tm p : has S x tm -> has S x (trypair cap tm p).
+Proof.
+  intros (e & Hin & Hle).
+  destruct (try_pair_cases cap tm p) as [E|(tl & sa & sb & Hc & H)]; [rewrite E; exists e; auto|].
+  cbv zeta in H. destruct H as (_ & E & Hcur). rewrite E.
+  destruct (tset_preserve (S, e) (N.lor (fst (fst p)) (fst (snd p))) (fst (con_cost app szs o tl sa sb),
+             (snd (con_cost app szs o tl sa sb),
+              e_path (snd (fst p)) ++ e_path (snd (snd p)) ++ [(fst (fst p), fst (snd p))])) tm Hin)
+    as [H1|[H1 H2]].
+  - exists e. auto.
+  - cbn [fst snd] in *. subst S.
+    destruct Hcur as [Hn|(cur & Hg & Hlt)]; [congruence|].
+    rewrite Hg in H1. inversion H1; subst cur.
+    eexists. split; [apply tset_In|]. unfold e_score at 1. cbn [fst snd]. lia.
+Qed.
+
+Lemma has_established cap a b pi pj : good a pi -> good b pj ->
+  N.land (fst pi) (fst pj) = 0%N -> (so = true \/ shares nodes app (fst pi) (fst pj) = true) ->
+  (combine_sc o (e_score (snd pi)) (e_score (snd pj)) (stepc (fst pi) (fst pj)) <= cap)%Z ->
+  forall tm, has (N.lor (fst pi) (fst pj))
+                 (combine_sc o (e_score (snd pi)) (e_score (snd pj)) (stepc (fst pi) (fst pj)))
+                 (trypair cap tm (pi, pj)).
+Proof.
+  intros Hgi Hgj Hd Hs Hcap tm. unfold try_pair.
+  rewrite (cand_some a b pi pj Hgi Hgj Hd Hs).
+  rewrite (con_cost_spec nodes app szs Happ o _ _ _ _ Hd). cbn [fst snd].
+  set (sc := combine_sc o (e_score (snd pi)) (e_score (snd pj)) (stepc (fst pi) (fst pj))) in *.
+  destruct (Z.gtb_spec sc cap) as [Hgt|_]; [lia|].
+  destruct (tget (N.lor (fst pi) (fst pj)) tm) as [cur|] eqn:Eg.
+  - destruct (Z.ltb_spec sc (e_score cur)) as [Hlt|Hge].
+    + eexists. split; [apply tset_In|]. unfold e_score at 1. cbn [fst snd]. lia.
+    + exists cur. split; [apply tget_In, Eg | lia].
+  - eexists. split; [apply tset_In|]. unfold e_score at 1. cbn [fst snd]. lia.
+Qed.
+
+Lemma try_pair_capped cap tm p :
+  (forall x, In x tm -> (e_score (snd x) <= cap)%Z) ->
+  forall x, In x (trypair cap tm p) -> (e_score (snd x) <= cap)%Z.
+Proof.
+  intros Htm.
+  destruct (try_pair_cases cap tm p) as [E|(tl & sa & sb & Hc & H)]; [rewrite E; exact Htm|].
+  cbv zeta in H. destruct H as (Hle & E & _). rewrite E. intros x Hx.
+  apply In_tset in Hx. destruct Hx as [->|Hx]; [|apply Htm, Hx]. exact Hle.
+Qed.
+
+
+Lemma has_weaken S x y tm : has S x tm -> (x <= y)%Z -> has S y tm.
+Proof. intros (e & H1 & H2) H. exists e. split; [exact H1 | lia]. Qed.
+
+Lemma fold2_establish {A K B} (f : A -> B -> A) (pairs : K -> list B) (P : A -> Prop) ks k p :
+  In k ks -> In p (pairs k) -> (forall a, P (f a p)) -> (forall a q, P a -> P (f a q)) ->
+  forall a, P (fold_left (fun tm k => fold_left f (pairs k) tm) ks a).
+Proof.
+  intros Hk Hp He Hpres.
+  apply (fold_establish (fun tm k => fold_left f (pairs k) tm) P ks k Hk).
+  - apply (fold_establish f P (pairs k) p Hp He Hpres).
+  - intros a k' Ha. apply fold_left_inv; [intros; apply Hpres; assumption | exact Ha].
+Qed.
+
+Lemma pairs_for_in tabs m k p : In p (pairs_for tabs m k) ->
+  In (fst p) (nth k tabs []) /\ In (snd p) (nth (m - k) tabs []).
+Proof.
+  unfold pairs_for. destruct p as [pi pj]. cbn [fst snd].
+  destruct (Nat.eqb_spec k (m - k)) as [E|E]; cbn [negb].
+  - intros H. apply in_combs2 in H. rewrite <- E. exact H.
+  - apply in_product2.
+Qed.
+
+Lemma half_bound m k : In k (seq 1 (m / 2)) -> 1 <= k /\ k + k <= m.
+Proof.
+  intros H. apply in_seq in H. split; [lia|].
+  pose proof (Nat.mul_div_le m 2). lia.
+Qed.
+
+Lemma level_pass_sound cap tabs m : sound tabs -> sound (level_pass app szs o so cap tabs m).
+Proof.
+  intros Hs m' x. unfold level_pass.
+  match goal with |- In x (nth m' (set_nth m ?v tabs) []) -> _ =>
+    destruct (nth_set_nth_cases v (@nil (N * entry)) tabs m m') as [E|[-> E]]; rewrite E; [apply Hs|]; clear E end.
+  revert x.
+  apply (fold_left_inv (fun tm k => fold_left (trypair cap) (pairs_for tabs m k) tm)
+                       (fun tm => forall x, In x tm -> good m x)); [|apply Hs].
+  intros tm k Hk Htm. apply half_bound in Hk.
+  apply (fold_left_inv (trypair cap) (fun tm => forall x, In x tm -> good m x)); [|exact Htm].
+  intros tm' [pi pj] Hp Htm'. apply pairs_for_in in Hp. cbn [fst snd] in Hp. destruct Hp as [Hpi Hpj].
+  apply Hs in Hpi. apply Hs in Hpj.
+  remember (m - k) as b eqn:Eb. assert (Em : m = k + b) by lia. clear Eb. subst m.
+  apply try_pair_sound; assumption.
+Qed.
+
+(* level m holds, for every admissible tree with m leaves and score <= C, an entry for its
+   leaf set that is at least as good *)
+Definition covers (C : Z) (tabs : list table) (m : nat) : Prop :=
+  forall t S, vtree n t S -> nleaves t = m -> adm t = true -> (tsc t <= C)%Z ->
+  has S (tsc t) (nth m tabs []).
+
+Lemma establish_either cap a b pi pj p : good a pi -> good b pj ->
+  N.land (fst pi) (fst pj) = 0%N -> (so = true \/ shares nodes app (fst pi) (fst pj) = true) ->
+  (combine_sc o (e_score (snd pi)) (e_score (snd pj)) (stepc (fst pi) (fst pj)) <= cap)%Z ->
+  p = (pi, pj) \/ p = (pj, pi) ->
+  forall tm, has (N.lor (fst pi) (fst pj))
+                 (combine_sc o (e_score (snd pi)) (e_score (snd pj)) (stepc (fst pi) (fst pj)))
+                 (trypair cap tm p).
+Proof.
+  intros Hgi Hgj Hd Hs Hcap [->| ->] tm.
+  - apply (has_established cap a b); assumption.
+  - rewrite N.lor_comm, combine_sym, step_cost_sym.
+    apply (has_established cap b a); try assumption.
+    + rewrite N.land_comm; exact Hd.
+    + rewrite shares_sym; exact Hs.
+    + rewrite combine_sym, step_cost_sym; exact Hcap.
+Qed.
+
+Lemma pair_in_level tabs m a b (pi pj : N * entry) :
+  In pi (nth a tabs []) -> In pj (nth b tabs []) -> a + b = m -> 1 <= a -> 1 <= b -> pi <> pj ->
+  exists k p, In k (seq 1 (m / 2)) /\ In p (pairs_for tabs m k) /\ (p = (pi, pj) \/ p = (pj, pi)).
+Proof.
+  intros Hi Hj Hm Ha Hb Hne.
+  assert (Hdiv : forall k, 1 <= k -> k + k <= m -> In k (seq 1 (m / 2))).
+  { intros k H1 H2. apply in_seq. split; [lia|].
+    assert (k <= m / 2) by (apply Nat.div_le_lower_bound; lia). lia. }
+  destruct (lt_eq_lt_dec a b) as [[Hlt|Heq]|Hgt].
+  - exists a, (pi, pj). split; [apply Hdiv; lia|]. split; [|left; reflexivity].
+    unfold pairs_for. destruct (Nat.eqb_spec a (m - a)) as [E|E]; [lia|]. cbn [negb].
+    apply in_product2. replace (m - a) with b by lia. auto.
+  - subst b. destruct (combs2_complete (nth a tabs []) pi pj Hi Hj Hne) as [H|H].
+    + exists a, (pi, pj). split; [apply Hdiv; lia|]. split; [|left; reflexivity].
+      unfold pairs_for. destruct (Nat.eqb_spec a (m - a)) as [E|E]; [|lia]. exact H.
+    + exists a, (pj, pi). split; [apply Hdiv; lia|]. split; [|right; reflexivity].
+      unfold pairs_for. destruct (Nat.eqb_spec a (m - a)) as [E|E]; [|lia]. exact H.
+  - exists b, (pj, pi). split; [apply Hdiv; lia|]. split; [|right; reflexivity].
+    unfold pairs_for. destruct (Nat.eqb_spec b (m - b)) as [E|E]; [lia|]. cbn [negb].
+    apply in_product2. replace (m - b) with a by lia. auto.
+Qed.
+
+Lemma adm_node l r : adm (Node l r) = true ->
+  adm l = true /\ adm r = true /\ (so = true \/ shares nodes app (mask l) (mask r) = true).
+Proof.
+  unfold admissible. cbn [outer_free]. destruct so; cbn [orb]; [auto|].
+  intros H. apply andb_true_iff in H. destruct H as [H H3]. apply andb_true_iff in H. tauto.
+Qed.
+
+Lemma level_pass_covers cap tabs m : length tabs = n + 1 -> 2 <= m <= n -> sound tabs ->
+  (forall m', 1 <= m' < m -> covers cap tabs m') ->
+  covers cap (level_pass app szs o so cap tabs m) m.
+Proof.
+  intros Hlen Hm Hs Hcov t S Hv Hn Ha Hc.
+  unfold level_pass. rewrite nth_set_nth_same by lia.
+  inversion Hv as [i Hi|l r Sl Sr Hvl Hvr Hd]; subst; cbn [nleaves] in *; [lia|].
+  pose proof (vtree_nleaves_pos _ _ _ Hvl) as Hal. pose proof (vtree_nleaves_pos _ _ _ Hvr) as Har.
+  apply adm_node in Ha. destruct Ha as (Hadl & Hadr & Hsh).
+  cbn [tscore] in *. rewrite (vtree_mask _ _ _ Hvl), (vtree_mask _ _ _ Hvr) in *.
+  pose proof (tscore_nonneg nodes app szs Hsz o l Hobj) as Hl0.
+  pose proof (tscore_nonneg nodes app szs Hsz o r Hobj) as Hr0.
+  pose proof (step_cost_nonneg nodes app szs Hsz o Sl Sr Hobj) as Hs0.
+  destruct (combine_ge o _ _ _ Hl0 Hr0 Hs0) as (Hgl & Hgr & _).
+  assert (Hcl : (tsc l <= cap)%Z) by (eapply Z.le_trans; [exact Hgl | exact Hc]).
+  assert (Hcr : (tsc r <= cap)%Z) by (eapply Z.le_trans; [exact Hgr | exact Hc]).
+  assert (Hml : 1 <= nleaves l < nleaves l + nleaves r) by lia.
+  assert (Hmr : 1 <= nleaves r < nleaves l + nleaves r) by lia.
+  destruct (Hcov (nleaves l) Hml l Sl Hvl eq_refl Hadl Hcl) as (el & Hinl & Hlel).
+  destruct (Hcov (nleaves r) Hmr r Sr Hvr eq_refl Hadr Hcr) as (er & Hinr & Hler).
+  pose proof (Hs _ _ Hinl) as Hgoodl. pose proof (Hs _ _ Hinr) as Hgoodr.
+  assert (Hne : (Sl, el) <> (Sr, er)).
+  { intros E. inversion E; subst. rewrite N.land_diag in Hd.
+    exact (vtree_nonzero _ _ _ Hvr Hd). }
+  destruct (pair_in_level tabs (nleaves l + nleaves r) _ _ _ _ Hinl Hinr eq_refl Hal Har Hne)
+    as (k & p & Hk & Hp & Hor).
+  assert (Hmono : (combine_sc o (e_score el) (e_score er) (stepc Sl Sr)
+                   <= combine_sc o (tsc l) (tsc r) (stepc Sl Sr))%Z) by (apply combine_mono; assumption).
+  apply has_weaken with (x := combine_sc o (e_score el) (e_score er) (stepc Sl Sr)); [|exact Hmono].
+  apply (fold2_establish (trypair cap) (pairs_for tabs (nleaves l + nleaves r))
+           (has (N.lor Sl Sr) (combine_sc o (e_score el) (e_score er) (stepc Sl Sr)))
+           (seq 1 ((nleaves l + nleaves r) / 2)) k p Hk Hp).
+  - apply (establish_either cap (nleaves l) (nleaves r) (Sl, el) (Sr, er) p Hgoodl Hgoodr Hd Hsh); [cbn [fst snd]; lia | exact Hor].
+  - intros tm q. apply has_preserved.
+Qed.
+
+End PartB.
